@@ -995,7 +995,318 @@ def p_privkey_point(secret):
     return None
 
 
-PROPS = {"layers": p_layers, "privkey_point": p_privkey_point, "int_points": p_int_points, "field_axioms": p_field_axioms, "small_curve": p_small_curve, "group_ids": p_group_ids,
+# ---- audit round 3: alternative entry points (keyword / 4-argument / field-object constructors, PrivateKey with its
+# optional arguments, tuple containers, +=), the RESULT OBJECTS of every operation (class, curve coefficients, parity,
+# encodings -- not only their coordinates), results held while their sources are used again, failure followed by a retry,
+# S256Field.sqrt on its own, decoders called with other byte containers, parse_xonly called directly with a wrong length
+
+
+def _wf(R, E, what):
+    """R is a well-formed S256Point for the reference coordinates E (None = infinity): class, coordinates, curve
+    coefficients 0 / 7 over F_p, parity attribute, all three encodings with the argument left out / positional / keyword"""
+    if not isinstance(R, S256Point):
+        return f"{what}: the result is a {type(R).__name__}, not an S256Point"
+    if _tup(R) != E:
+        return f"{what}: coordinates {_tup(R)}, reference {E}"
+    cf = _outcome(lambda: (R.a.num, R.a.prime, R.b.num, R.b.prime))
+    if cf != ("ok", (0, P, 7, P)):
+        return f"{what}: curve coefficients of the result are {cf}, not 0 and 7 over F_p"
+    if E is None:
+        return None if R.y is None else f"{what}: x is None but y is {R.y!r}"
+    if R.x.prime != P or R.y.prime != P:
+        return f"{what}: coordinates live in F_{R.x.prime} / F_{R.y.prime}"
+    xb, yb = E[0].to_bytes(32, "big"), E[1].to_bytes(32, "big")
+    c, u = bytes([2 + (E[1] & 1)]) + xb, b"\x04" + xb + yb
+    got = _outcome(lambda: (R.parity, R.sec(), R.sec(True), R.sec(False), R.sec(compressed=False), R.xonly()))
+    if got != ("ok", (E[1] & 1, c, c, u, u, xb)):
+        return f"{what}: parity / sec() / sec(True) / sec(False) / xonly() of the result object are {got}"
+    return None
+
+
+def p_result_shape(k, j, c, t):
+    """A = kG, B = jG (Jacobian reference).  A is built through every constructor form (ints positional / by keyword,
+    S256Field objects, the 4-argument form Point.__add__ itself uses, explicit None, generic FieldElement objects of F_p,
+    S256Field with its ignored second argument, PrivateKey with and without its optional arguments); all forms are equal
+    to each other.  Every operation on every form (+ both orders, doubling, + (-A), infinity on either side, +=,
+    combine on list and tuple, and -- on two forms -- c *, + t, generic __rmul__, even_point) returns a WELL-FORMED
+    S256Point: class, coordinates, coefficients, parity attribute and encodings of the RESULT object.  Results are held
+    while the sources go through failing calls and further operations, then verified again."""
+    A, B = j_mul(k, (GX, GY)), j_mul(j, (GX, GY))
+    if A is None or B is None:
+        return "harness: k and j must not be multiples of n"
+    x, y = A
+    s_ = k % N
+    ctors = [("S256Point(x, y)", lambda: S256Point(x, y)),
+             ("S256Point(x=x, y=y)", lambda: S256Point(x=x, y=y)),
+             ("S256Point(y=y, x=x)", lambda: S256Point(y=y, x=x)),
+             ("S256Point(S256Field(x), S256Field(y))", lambda: S256Point(S256Field(x), S256Field(y))),
+             ("S256Point(x, y, S256Field(0), S256Field(7))", lambda: S256Point(x, y, S256Field(0), S256Field(7))),
+             ("S256Point(x, y, None, None)", lambda: S256Point(x, y, None, None)),
+             ("S256Point(x, y, b=None)", lambda: S256Point(x, y, b=None)),
+             ("S256Point(FieldElement(x, P), FieldElement(y, P))", lambda: S256Point(FE(x, P), FE(y, P))),
+             ("S256Point(S256Field(x, P), S256Field(y, prime=None))", lambda: S256Point(S256Field(x, P), S256Field(y, prime=None))),
+             ("S256Point(S256Field(num=x, prime=7), S256Field(num=y))", lambda: S256Point(S256Field(num=x, prime=7), S256Field(num=y))),
+             ("PrivateKey(k).point", lambda: pecc.PrivateKey(s_).point),
+             ("PrivateKey(k, 'testnet', False).point", lambda: pecc.PrivateKey(s_, "testnet", False).point),
+             ("PrivateKey(secret=k, compressed=False, network='signet').point",
+              lambda: pecc.PrivateKey(secret=s_, compressed=False, network="signet").point)]
+    vs = []
+    for nm, f in ctors:
+        got = _outcome(f)
+        if got[0] != "ok":
+            return f"{nm} for the curve point {k:#x}*G raises {got[1]}"
+        bad = _wf(got[1], A, nm)
+        if bad:
+            return bad
+        vs.append((nm, got[1]))
+    # coefficients given explicitly must not replace secp256k1's: either refused or ignored; an off-curve pair that
+    # WOULD satisfy y^2 = x^3 + b' is still not a point
+    y2 = (y + 1) % P
+    b2 = (y2 * y2 - x * x * x) % P
+    for nm, f in (("S256Point(x, y, S256Field(5), S256Field(9))", lambda: S256Point(x, y, S256Field(5), S256Field(9))),
+                  ("S256Point(x, y, a=FieldElement(1, P), b=FieldElement(2, P))", lambda: S256Point(x, y, a=FE(1, P), b=FE(2, P)))):
+        got = _outcome(f)
+        if got[0] == "ok":
+            bad = _wf(got[1], A, nm)
+            if bad:
+                return bad
+    for nm, f in (("S256Point(x, y+1)", lambda: S256Point(x, y2)),
+                  ("S256Point(x, y+1, S256Field(0), S256Field(b')) with b' = (y+1)^2 - x^3", lambda: S256Point(x, y2, S256Field(0), S256Field(b2))),
+                  ("S256Point(x, y+1, a=FieldElement(0, P), b=FieldElement(b', P))", lambda: S256Point(x, y2, a=FE(0, P), b=FE(b2, P))),
+                  ("S256Point(S256Field(x), S256Field(y+1), b=S256Field(b'))", lambda: S256Point(S256Field(x), S256Field(y2), b=S256Field(b2)))):
+        got = _outcome(f)
+        if got[0] != "raise":
+            return f"{nm} is accepted although ({x:#x}, y+1) is not on secp256k1"
+    for (n1, o1) in vs:
+        for (n2, o2) in vs:
+            bad = _eq_ne(o1, o2, True, f"{n1} vs {n2}")
+            if bad:
+                return bad
+    negA = (x, P - y)
+    Qt, inf, Ng = _sp(B), S256Point(None, None), _sp(negA)
+    ref = lambda U, V: j_aff(j_add(j_of(U), j_of(V)))        # noqa
+    AB, AA = ref(A, B), ref(A, A)
+    held = []
+
+    def keep(what, f, E):
+        got = _outcome(f)
+        if got[0] != "ok":
+            return f"{what} raises {got[1]}"
+        held.append((what, got[1], E))
+        return _wf(got[1], E, what)
+
+    def iadd(V, W):
+        u = V
+        u += W
+        return u
+
+    heavy = {0, 1 + (k + j) % (len(vs) - 1)}
+    for i, (nm, V) in enumerate(vs):
+        ops = [(f"({nm}) + Q", lambda: V + Qt, AB), (f"Q + ({nm})", lambda: Qt + V, AB), (f"({nm}) + itself", lambda: V + V, AA),
+               (f"({nm}) + (-A)", lambda: V + Ng, None), (f"(-A) + ({nm})", lambda: Ng + V, None),
+               (f"infinity + ({nm})", lambda: inf + V, A), (f"({nm}) + infinity", lambda: V + inf, A),
+               (f"u = ({nm}); u += Q", lambda: iadd(V, Qt), AB), (f"u = infinity; u += ({nm})", lambda: iadd(inf, V), A),
+               (f"combine([{nm}, Q])", lambda: S256Point.combine([V, Qt]), AB),
+               (f"combine((Q, {nm}))", lambda: S256Point.combine((Qt, V)), AB),
+               (f"combine([{nm}])", lambda: S256Point.combine([V]), A),
+               (f"combine([infinity, {nm}, infinity])", lambda: S256Point.combine([inf, V, inf]), A),
+               (f"combine(({nm}, -A, Q))", lambda: S256Point.combine((V, Ng, Qt)), B)]
+        if i in heavy:
+            ops += [(f"{c:#x} * ({nm})", lambda: c * V, j_mul(c, A)),
+                    (f"({nm}) + {t:#x} (int shorthand)", lambda: V + t, j_mul(k + t, (GX, GY))),
+                    (f"generic Point.__rmul__({nm}, c mod n)", lambda: Point.__rmul__(V, c % N), j_mul(c, A)),
+                    (f"({nm}).even_point()", lambda: V.even_point(), A if y % 2 == 0 else negA),
+                    (f"(({nm}) + Q) + (-A): a result used as an operand", lambda: (V + Qt) + Ng, B)]
+        for what, f, E in ops:
+            bad = keep(what, f, E)
+            if bad:
+                return bad
+            if _tup(V) != A or _tup(Qt) != B or _tup(Ng) != negA or inf.x is not None or inf.y is not None:
+                return f"{what} changed one of its operands"
+    # failing calls, then everything once more
+    V0 = vs[0][1]
+    other = Point(FE(1, 11), FE(3, 11), FE(0, 11), FE(8, 11))         # 9 = 1 + 8 over F_11
+    xb = x.to_bytes(32, "big")
+    for what, f in (("A + a point of another curve", lambda: V0 + other), ("a point of another curve + A", lambda: other + V0),
+                    ("S256Point(x, y+1)", lambda: S256Point(x, y2)), ("parse(05 || x)", lambda: S256Point.parse(b"\x05" + xb)),
+                    ("combine([])", lambda: S256Point.combine([])), ("A + None", lambda: V0 + None),
+                    ("infinity.sec()", lambda: inf.sec()), ("S256Field(p)", lambda: S256Field(P))):
+        got = _outcome(f)
+        if got[0] != "raise":
+            return f"{what} returns {got[1]!r} instead of raising"
+    for what, R, E in held:
+        bad = _wf(R, E, what + " (held, verified again after later operations and failing calls)")
+        if bad:
+            return bad
+    for nm, V in vs:
+        bad = _wf(V, A, nm + " (after the operations)") or _wf(V + Qt, AB, f"({nm}) + Q after failing calls")
+        if bad:
+            return bad
+    return _wf(Qt, B, "Q after the operations") or _wf(pecc.G, (GX, GY), "the module's G after the operations")
+
+
+def p_small_shape(p, a, b):
+    """generic Point on y^2 = x^3 + a x + b over F_p: keyword construction equals positional; the RESULT object of
+    every sum (infinity results included) and multiple is a Point of the same curve (class, a, b) that works as an
+    operand again -- (A+B)+C, C+(A+B), 2*(A+B) on the result objects; u = A; u += B leaves A alone; a TypeError /
+    ValueError from a bad call is followed by correct answers on the same objects; results held to the end are unchanged;
+    FieldElement by keyword, class and prime of operator results"""
+    fa, fb = FE(a, p), FE(b, p)
+    pts = ref_points(p, a, b)
+    obj = {A: _gp(p, a, b, A) for A in pts}
+    kw = _outcome(lambda: [Point(x=FE(num=A[0], prime=p), y=FE(prime=p, num=A[1]), a=fa, b=fb) if A else Point(b=fb, a=fa, y=None, x=None)
+                           for A in pts])
+    if kw[0] != "ok":
+        return f"F_{p}: construction by keyword raises {kw[1]}"
+    for A, o in zip(pts, kw[1]):
+        bad = _eq_ne(o, obj[A], True, f"F_{p}: {A} built by keyword vs positionally")
+        if bad:
+            return bad
+    foreign = Point(None, None, FE((a + 1) % p, p), fb)
+    held = []
+
+    def shape(R, E, what):
+        if type(R) is not Point:
+            return f"F_{p} {what}: result is a {type(R).__name__}"
+        if _tup(R) != E:
+            return f"F_{p} {what}: {_tup(R)}, reference {E}"
+        cf = _outcome(lambda: (R.a.num, R.a.prime, R.b.num, R.b.prime))
+        if cf != ("ok", (a, p, b, p)):
+            return f"F_{p} {what}: the result carries the coefficients {cf}, the curve has a={a} b={b} over F_{p}"
+        return None
+    some = pts[:2] + pts[-3:]
+    for n, A in enumerate(pts):
+        for B in pts:
+            E = ref_add(p, a, A, B)
+            got = _outcome(lambda: obj[A] + obj[B])
+            if got[0] != "ok":
+                return f"F_{p}: {A} + {B} raises {got[1]}"
+            R = got[1]
+            bad = shape(R, E, f"{A} + {B}")
+            if bad:
+                return bad
+            held.append((f"{A} + {B}", R, E))
+            u = obj[A]
+            u += obj[B]
+            if _tup(u) != E or _tup(obj[A]) != A or _tup(obj[B]) != B:
+                return f"F_{p}: u = {A}; u += {B} gives {_tup(u)} and leaves the operands {_tup(obj[A])}, {_tup(obj[B])}"
+            for C_ in some:
+                got = _outcome(lambda: (_tup(R + obj[C_]), _tup(obj[C_] + R)))
+                want = ref_add(p, a, E, C_)
+                if got != ("ok", (want, want)):
+                    return f"F_{p}: ({A} + {B}) + {C_} on the result object gives {got}, reference {want}"
+            got = _outcome(lambda: 2 * R)
+            if got[0] != "ok" or shape(got[1], ref_add(p, a, E, E), f"2 * ({A} + {B})"):
+                return f"F_{p}: 2 * ({A} + {B}) on the result object: {got}"
+        for kk in (0, 1, 2, 3, len(pts), len(pts) + 2):
+            got = _outcome(lambda: kk * obj[A])
+            if got[0] != "ok":
+                return f"F_{p}: {kk} * {A} raises {got[1]}"
+            bad = shape(got[1], ref_mul(p, a, kk, A), f"{kk} * {A}")
+            if bad:
+                return bad
+            held.append((f"{kk} * {A}", got[1], ref_mul(p, a, kk, A)))
+        # a failing call, then the same objects again
+        if n % 3 == 0:
+            for what, f in ((f"{A} + infinity of another curve", lambda: obj[A] + foreign),
+                            (f"infinity of another curve + {A}", lambda: foreign + obj[A]),
+                            ("an off-curve constructor call", lambda: Point(FE(0, p), FE(1 if (1 - b) % p else 2, p), fa, fb))):
+                got = _outcome(f)
+                if got[0] != "raise":
+                    return f"F_{p}: {what} returns {got[1]!r} instead of raising"
+            B = pts[(n * 7 + 1) % len(pts)]
+            if _tup(obj[A] + obj[B]) != ref_add(p, a, A, B):
+                return f"F_{p}: {A} + {B} after a failing call"
+    for what, R, E in held:
+        bad = shape(R, E, what + " (held to the end)")
+        if bad:
+            return bad
+    for u in (FE(num=1 % p, prime=p), FE(prime=p, num=p - 1)):
+        for nm, op in _FE_OPS:
+            w = op(u, FE(p - 1, p))
+            if type(w) is not FE or w.prime != p:
+                return f"F_{p}: FieldElement {nm} FieldElement is a {type(w).__name__} of prime {w.prime}"
+        for w in (u ** 3, u ** -1, 3 * u):
+            if type(w) is not FE or w.prime != p:
+                return f"F_{p}: ** / int * on a FieldElement gives a {type(w).__name__} of prime {w.prime}"
+    return None
+
+
+def p_sqrt(c):
+    """S256Field(c).sqrt() on its own (every decoder path goes through it, but only with c = x^3 + 7): a root whose
+    square is c when c is a square (Euler's criterion), ValueError when it is not; the same on the S256Field object that
+    the operators return (class kept through + - * / ** and int *: hex(), sqrt() exist, prime is p whatever the ignored
+    second constructor argument says); an argument outside [0, p) is refused"""
+    if not 0 <= c < P:
+        got = _outcome(lambda: S256Field(c))
+        return None if got[0] == "raise" else f"S256Field({c:#x}) is accepted as {got[1]!r}"
+    is_sq = c == 0 or pow(c, (P - 1) // 2, P) == 1
+    d = (c * 4) % P                                          # a square iff c is; 2 * sqrt(c) is a root
+    forms = [("S256Field(c)", lambda: S256Field(c)), ("S256Field(c, 7)", lambda: S256Field(c, 7)),
+             ("S256Field(num=c, prime=None)", lambda: S256Field(num=c, prime=None)),
+             ("S256Field(c) + S256Field(0)", lambda: S256Field(c) + S256Field(0)),
+             ("S256Field(c) - S256Field(0)", lambda: S256Field(c) - S256Field(0)),
+             ("S256Field(c) * S256Field(1)", lambda: S256Field(c) * S256Field(1)),
+             ("S256Field(c) / S256Field(1)", lambda: S256Field(c) / S256Field(1)),
+             ("S256Field(c) ** 1", lambda: S256Field(c) ** 1), ("1 * S256Field(c)", lambda: 1 * S256Field(c)),
+             ("(S256Field(c) ** -1) ** -1", lambda: (S256Field(c) ** -1) ** -1 if c else S256Field(0))]
+    for nm, f in forms:
+        got = _outcome(f)
+        if got[0] != "ok" or not isinstance(got[1], S256Field) or (got[1].num, got[1].prime) != (c, P):
+            return f"{nm} is {got}, expected the S256Field element {c:#x} of F_p"
+        e = got[1]
+        if e.hex() != "%064x" % c or repr(e) != "%064x" % c:
+            return f"{nm}: hex() / repr give {e.hex()!r}"
+        r = _outcome(lambda: e.sqrt())
+        if is_sq:
+            if r[0] != "ok" or not isinstance(r[1], S256Field) or r[1].num * r[1].num % P != c:
+                return f"({nm}).sqrt() of the square {c:#x} gives {r}"
+        elif r != ("raise", "ValueError"):
+            return f"({nm}).sqrt() of the non-square {c:#x} gives {r}, expected ValueError"
+        if (e.num, e.prime) != (c, P):
+            return f"({nm}).sqrt() changed the element"
+    r4 = _outcome(lambda: (4 * S256Field(c)).sqrt().num)
+    if is_sq:
+        if r4[0] != "ok" or r4[1] * r4[1] % P != d:
+            return f"(4 * S256Field(c)).sqrt() gives {r4}"
+    elif r4[0] != "raise":
+        return f"(4 * S256Field(c)).sqrt() of a non-square gives {r4}"
+    return None
+
+
+def p_parse_types(b):
+    """the decoders on the same bytes held in a bytearray / memoryview give what a strict decoder gives on bytes, and
+    leave the buffer as it was"""
+    want = spec_decode(b)
+    for tn, typ in (("bytearray", bytearray), ("memoryview", memoryview), ("bytes copy", lambda s: bytes(bytearray(s)))):
+        fns = [("parse", S256Point.parse)]
+        if len(b) in (33, 65):
+            fns.append(("parse_sec", S256Point.parse_sec))
+        if len(b) == 32:
+            fns.append(("parse_xonly", S256Point.parse_xonly))
+        for nm, f in fns:
+            buf = typ(b)
+            got = _parse_res(f, buf)
+            if got != want:
+                return f"{nm}({tn} of {b.hex()}) gives {got}, a strict decoder gives {want}"
+            if bytes(buf) != b:
+                return f"{nm} changed its {tn} argument"
+    return None
+
+
+def p_parse_xonly_len(b):
+    """S256Point.parse_xonly called DIRECTLY (taproot.py and op.py do; S256Point.parse dispatches on the length first):
+    a string that is not 32 bytes long is not an x-only key"""
+    if len(b) == 32:
+        return "harness: this predicate is for lengths other than 32"
+    got = _parse_res(S256Point.parse_xonly, b)
+    if got != "reject":
+        return f"parse_xonly accepts the {len(b)}-byte string {b.hex()!r}: {got}"
+    return None
+
+
+PROPS = {"result_shape": p_result_shape, "small_shape": p_small_shape, "sqrt": p_sqrt, "parse_types": p_parse_types,
+         "parse_xonly_len": p_parse_xonly_len, "layers": p_layers, "privkey_point": p_privkey_point, "int_points": p_int_points, "field_axioms": p_field_axioms, "small_curve": p_small_curve, "group_ids": p_group_ids,
          "point_laws": p_point_laws, "scalar": p_scalar, "sec_rt": p_sec_rt, "parse": p_parse,
          "double_y0": p_double_y0, "fe_reuse": p_fe_reuse, "pt_reuse_small": p_pt_reuse_small,
          "s256_reuse": p_s256_reuse, "parse_history": p_parse_history,
@@ -1006,7 +1317,12 @@ PROPS = {"layers": p_layers, "privkey_point": p_privkey_point, "int_points": p_i
 def classify(v):
     if v["kind"] == "prop" and v["name"] == "parse" and v["args"][0] == bytes(32):
         return "K-C03-xonly-zero-is-infinity"
+    if v["kind"] == "prop" and v["name"] == "parse_xonly_len" and len(v["args"][0]) != 32:
+        return XONLY_LEN_KEY
     return None
+
+
+XONLY_LEN_KEY = "K-C03-parse-xonly-any-length"
 
 
 # ---------------------------------------------------------------- generators
@@ -1149,6 +1465,77 @@ def generate(ctx):
     for (x, y, a, b) in [(-1, -1, 5, 7), (-1, 1, 5, 7), (2, 5, 5, 7), (3, -7, 5, 7), (18, 77, 5, 7)]:
         yield ("prop", "int_points", [x, y, a, b])
     yield from _generate_reuse(ctx)
+    yield from _generate_audit(ctx)
+
+
+def _generate_audit(ctx):
+    """alternative entry points / defaults / result objects / special byte classes (audit round 3)"""
+    r = ctx.rng
+    thorough = ctx.tier == "thorough"
+    # (1*G has even y, (n-1)*G odd y; j = n-k makes Q = -A; k = j makes Q = A)
+    for (k, j, c, t) in [(1, 2, N - 1, 1), (N - 1, 1, (1 << 256) + 3, N - 1), (5, N - 5, -2, N + 7)] + \
+                        [(r.randrange(1, N), r.randrange(1, N), rscalar(r), rscalar(r)) for _ in range(ctx.n(1, 25))]:
+        ctx.label("shape/every constructor form, result objects of every operation, held results, failure then retry")
+        yield ("prop", "result_shape", [k, j, c, t])
+    for p in [5, 11, 13] + ([17, 19, 23, 31, 43] if thorough else []):
+        ctx.label("shape/generic Point: keyword construction, result objects as operands, +=, failure then retry")
+        yield ("prop", "small_shape", [p, 0, 7 % p])
+    for p in [7, 17] + ([29, 37, 41] if thorough else []):
+        a, b = r.randrange(1, p), r.randrange(p)
+        if (4 * a ** 3 + 27 * b * b) % p:
+            ctx.label("shape/generic Point: keyword construction, result objects as operands, +=, failure then retry")
+            yield ("prop", "small_shape", [p, a, b])
+    for c in [0, 1, 2, 3, 4, 7, 9, P - 1, P - 2, P - 4, P - 7, (P - 1) // 2, (P + 1) // 2, (P + 1) // 4, N, N - 1, 1 << 255,
+              (1 << 255) - 19, P, P + 1, -1, 1 << 256] + [r.randrange(P) for _ in range(ctx.n(12, 200))]:
+        ctx.label("sqrt/S256Field.sqrt on squares, non-squares, 0, results of operators, out of range")
+        yield ("prop", "sqrt", [c])
+    # special x / y values as 32-, 33- and 65-byte candidates (the prefix sweep takes x from random points, small
+    # non-residues and x >= p): the ends of [0, p), the group order and its neighbours, single-bit and all-ff patterns
+    xs = [1, 2, 3, P - 1, P - 2, P - 3, N, N - 1, N + 1, 1 << 255, (1 << 255) - 1, 1 << 248, (1 << 256) - 1, P, 0xff,
+          int.from_bytes(b"\x01" * 32, "big"), int.from_bytes(b"\x7f" * 32, "big"), int.from_bytes(b"\x80" + bytes(31), "big")]
+    # x between the group order n and the field prime p (a window of 2^129 that no random or derived point shows):
+    # walk up from n and down from p until both sides have curve points and non-points
+    for start, step in ((N, 1), (P - 1, -1), (N + (P - N) // 2, 1)):
+        x, on, off = start, 0, 0
+        while on < 2 or off < 1:
+            if lift(x, False) is None:
+                off += 1
+                if off <= 1:
+                    xs.append(x)
+            else:
+                on += 1
+                if on <= 2:
+                    xs.append(x)
+            x += step
+    xs = sorted(set(xs))
+    for x in xs:
+        xb = x.to_bytes(32, "big")
+        q = lift(x, False)
+        if q and N <= x < P:
+            ctx.label("parse/x on the curve with n <= x < p")
+            for odd in (False, True):
+                yield ("prop", "sec_rt_xy", list(lift(x, odd)))
+                yield ("corr", "pt_new", [SECP] + list(lift(x, odd)))
+                yield ("prop", "scalar", [r.choice([2, 3, N - 1]), list(lift(x, odd))])
+        ys = ([q[1], P - q[1]] if q else [1]) + [x, 0, P - 1, (1 << 256) - 1]
+        cands = [xb, b"\x02" + xb, b"\x03" + xb, b"\x04" + xb, b"\x00" + xb] + \
+                [bytes([pre]) + xb + yy.to_bytes(32, "big") for yy in ys for pre in (4, 2, 6)]
+        for b_ in cands:
+            ctx.label("parse/special x: 1, p-1, n, n+-1, 2^255, all-ff ... " + ("(on the curve)" if q else "(not on the curve)"))
+            yield ("corr", "s_parse", [SECP, b_])
+            yield ("prop", "parse", [b_])
+            yield ("prop", "parse_types", [b_])
+    for v in [(GX, GY), j_mul(N - 1, (GX, GY)), j_mul(r.randrange(1, N), (GX, GY))]:
+        xb, yb = v[0].to_bytes(32, "big"), v[1].to_bytes(32, "big")
+        for b_ in (xb, b"\x02" + xb, b"\x03" + xb, b"\x04" + xb + yb, b"\x04" + xb + xb, b"\x05" + xb, xb[:31], b"", b"\x04" + xb + yb + b"\x00"):
+            ctx.label("parse/other byte containers (bytearray, memoryview)")
+            yield ("prop", "parse_types", [b_])
+    # a known finding (K-C03-parse-xonly-any-length): every one of these is accepted by the unchanged repository
+    gx = GX.to_bytes(32, "big")
+    for b_ in [b"", b"\x00", b"\x01", b"\x00" + gx, bytes(8) + gx, gx[:31], gx[1:], gx + b"\x00", (1).to_bytes(31, "big"),
+               (1).to_bytes(33, "big"), b"\x02" + gx, bytes(31), bytes(33), bytes(64), gx + gx]:
+        ctx.label("parse/parse_xonly called directly with a length other than 32")
+        yield ("prop", "parse_xonly_len", [b_])
 
 
 def _generate_eq(ctx):
